@@ -89,7 +89,20 @@ def main(argv=None):
     # 1. tie (T)
     ok, msg = core.tie_translate()
     if not ok:
-        broken.append(('translator', msg))
+        broken.append(('translator', msg))       # no definition could be produced at all: every property is affected
+    else:
+        # anchors the translator could not translate keep their committed (baseline) definition, so everything still builds
+        # and the search below runs against the last known-good model; the tie is reported broken only for the properties
+        # whose Props file (transitive `From JB Require` closure) mentions one of those names
+        stale = core.tie_stale()
+        hits = core.stale_hits(pid, stale)
+        if hits:
+            broken.append(('translator', 'tie broken for %s: %s' % (pid, '; '.join(
+                '%s (used in %s): %s' % (n, ', '.join(hits[n][:4]), stale[n]['error']) for n in sorted(hits)))))
+            ctx.stats['translator_stale'] = sorted(hits)
+        if stale:
+            ctx.stats['translator_stale_all'] = sorted(stale)
+            core.log('[%s] translator: stale names %s; this property depends on: %s' % (pid, ' '.join(sorted(stale)), ' '.join(sorted(hits)) or 'none'))
     # 2. proofs
     rc, out = core.coq_build()
     if rc != 0:
